@@ -37,6 +37,35 @@ type Case struct {
 	Note     string    `json:"note,omitempty"`
 	ErrOnly  bool      `json:"compare_error_only,omitempty"` // invalid UTF-8 names: encoders substitute U+FFFD (library behaviour)
 	Texts    []string  `json:"item_texts,omitempty"`         // item text of every non-blank row (for the no-silent-loss check)
+	Stray    string    `json:"stray_option,omitempty"`       // an output-encoding option given to mkdir / verify / walk, where it must not matter
+}
+
+// strayOpts: the encoding options belong to Output; Mkdir, Verify and Walk must behave the same with them.
+func strayOpts(c Case) []gtree.Option {
+	switch c.Stray {
+	case "json":
+		return []gtree.Option{gtree.WithEncodeJSON()}
+	case "yaml":
+		return []gtree.Option{gtree.WithEncodeYAML()}
+	case "toml":
+		return []gtree.Option{gtree.WithEncodeTOML()}
+	}
+	return nil
+}
+
+// strayAll gives every fourth mkdir / verify / walk case a stray encoding option.
+func strayAll(cs []Case) []Case {
+	out := make([]Case, len(cs))
+	copy(out, cs)
+	for i := range out {
+		switch out[i].Kind {
+		case "mkdir", "verify", "walk", "rootwalk", "rootiter":
+			if out[i].Stray == "" && i%4 == 3 {
+				out[i].Stray = []string{"json", "yaml", "toml"}[(i/4)%3]
+			}
+		}
+	}
+	return out
 }
 
 func newCase(kind string) Case {
@@ -136,9 +165,9 @@ func runCaseR(m *Model, c Case) ([]Diff, string) {
 		}
 		var err error
 		if c.Alias {
-			err = gtree.Walk(newReader(c.doc(), c.Fail), cb, fmtOpts(c.Fmt)...)
+			err = gtree.Walk(newReader(c.doc(), c.Fail), cb, append(fmtOpts(c.Fmt), strayOpts(c)...)...)
 		} else {
-			err = gtree.WalkFromMarkdown(newReader(c.doc(), c.Fail), cb, fmtOpts(c.Fmt)...)
+			err = gtree.WalkFromMarkdown(newReader(c.doc(), c.Fail), cb, append(fmtOpts(c.Fmt), strayOpts(c)...)...)
 		}
 		realv := "v=" + showVisits(vs) + " e=" + classify(err)
 		if err == nil && len(c.Texts) > 0 {
@@ -182,23 +211,23 @@ func runCaseR(m *Model, c Case) ([]Diff, string) {
 		var err error
 		root := buildRoot(t)
 		if c.Alias {
-			err = gtree.WalkProgrammably(root, cb, fmtOpts(c.Fmt)...)
+			err = gtree.WalkProgrammably(root, cb, append(fmtOpts(c.Fmt), strayOpts(c)...)...)
 		} else {
-			err = gtree.WalkFromRoot(root, cb, fmtOpts(c.Fmt)...)
+			err = gtree.WalkFromRoot(root, cb, append(fmtOpts(c.Fmt), strayOpts(c)...)...)
 		}
 		realv := "v=" + showVisits(vs) + " e=" + classify(err)
 		modelv := m.Ask("rootwalk " + c.Fmt.enc() + " " + optN(c.FailAt) + " " + addMirror(t).Enc())
 		d := cmp("walk-root", realv, modelv)
 		// walking the same root again visits the same rendered tree (node facts are rebuilt, not appended to)
 		vs, k = nil, 0
-		err2 := gtree.WalkFromRoot(root, cb, fmtOpts(c.Fmt)...)
+		err2 := gtree.WalkFromRoot(root, cb, append(fmtOpts(c.Fmt), strayOpts(c)...)...)
 		d = append(d, cmp("walk-root (second walk of the same root)", "v="+showVisits(vs)+" e="+classify(err2), modelv)...)
 		return d, realv
 	case "rootiter":
 		t := parseTreeEnc(c.Tree)
 		var vs []string
 		var ierr error
-		io := fmtOpts(c.Fmt)
+		io := append(fmtOpts(c.Fmt), strayOpts(c)...)
 		if c.Massive {
 			io = append(io, gtree.WithMassive(context.Background())) // ignored by the iterator form (it always walks in simple mode)
 		}
@@ -249,7 +278,7 @@ func runMkdir(m *Model, c Case) ([]Diff, string) {
 	populate(jail, c.Pre)
 	before := snapshot(jail)
 	target := filepath.Join(jail, c.Target)
-	opts := []gtree.Option{gtree.WithTargetDir(target), gtree.WithFileExtensions(c.Exts)}
+	opts := append([]gtree.Option{gtree.WithTargetDir(target), gtree.WithFileExtensions(c.Exts)}, strayOpts(c)...)
 	var written bytes.Buffer
 	var err error
 	call := func() {
@@ -301,7 +330,7 @@ func runVerify(m *Model, c Case) ([]Diff, string) {
 	populate(jail, c.Pre)
 	before := snapshot(jail)
 	target := filepath.Join(jail, c.Target)
-	opts := []gtree.Option{gtree.WithTargetDir(target)}
+	opts := append([]gtree.Option{gtree.WithTargetDir(target)}, strayOpts(c)...)
 	if c.Strict {
 		opts = append(opts, gtree.WithStrictVerify())
 	}
